@@ -15,6 +15,6 @@ def jobs(tier, prop):
                            ('literals_macro.cpp', 'h_lit_macro', 'real strToInt of macro.cpp on a symbolic decimal literal', ['macro.cpp:strToInt'])]:
         for n in ([3, 9, -10, 11] if tier == 'quick' else [-10] + list(range(1, 13))):
           bd = n < 0; n = abs(n)
-          J.append(fw.Job('lit.%s.len%d%s' % (e, n, 'b' if bd else ''), os.path.join(H, h), e, tus=['VM/src/instr.cpp'] if 'gen' in h else [], defines=d + ['LIT_LEN=%d' % n] + (['LIT_BOUNDARY=1'] if bd else []), caps='caps_lit.hpp', unwind=4, tags=[prop, 'C02'] if e == 'h_lit_insertion' else [prop], stubs=st, native=False, timeout=600, ub_pat=r'^(_Z\d|_ZN8GenState|_ZN16FunctionGenState)\S*\.overflow',
+          J.append(fw.Job('lit.%s.len%d%s' % (e, n, 'b' if bd else ''), os.path.join(H, h), e, tus=['VM/src/instr.cpp'] if 'gen' in h else [], defines=d + ['LIT_LEN=%d' % n] + (['LIT_BOUNDARY=1'] if bd else []), caps='caps_lit.hpp', unwind=4, tags=[prop, 'C02'] if e == 'h_lit_insertion' else [prop], stubs=st, native=False, timeout=600, ub_pat=r'^(_Z\d|_ZL(?!11sym_literal|16at_least_int_max)|_ZN8GenState|_ZN16FunctionGenState|h_lit_)\S*\.overflow',
                         what=what, bounds='decimal literals without leading zero, one query per length (quick: 3, 9, 11 digits and the ten-digit boundary family 21474836dd; thorough: every length 1..12 in full) (covers the 2^31 boundary with margin; oracle: digit-wise comparison with 2147483647; strtol modelled per the C standard)', functions=fn, extra=['--object-bits', '12'], build_key=(h, n, bd)))
     return J
